@@ -76,6 +76,9 @@ class Builder:
             o = object.__new__(k)
             self.objs[c['id']] = o
             for f, v in c['fields'].items():
+                if f.startswith('__cached_'):
+                    o.__dict__[f[9:]] = self.build(v)      # a functools.cached_property value computed in an earlier state of the object
+                    continue
                 object.__setattr__(o, f, self.build(v))
             return o
         raise ValueError(f'cannot build {t}')
@@ -100,6 +103,51 @@ class Pre:
         tree = T().visit(tree)
         ast.fix_missing_locations(tree)
         return compile(tree, '<clause>', 'eval')
+
+
+def state_diff(a, b, path, allowed, out, seen, depth=0):
+    """paths at which the post-state b differs from the deep copy a taken before the call (locations in `allowed` skipped)"""
+    if any(path == l or path.startswith(l + '.') or path.startswith(l + '[') for l in allowed) or depth > 8 or len(out) > 20:
+        return
+    if id(b) in seen:
+        return
+    if type(a) is not type(b):
+        out.append(f'{path}: {type(a).__name__} -> {type(b).__name__}')
+        return
+    if isinstance(b, (int, float, str, bytes, bool, type(None), type)) or callable(b):
+        if not callable(b) and a != b and not (a != a and b != b):
+            out.append(f'{path}: {a!r} -> {b!r}')
+        return
+    seen.add(id(b))
+    if type(b).__module__ == 'numpy':
+        try:
+            if a.dtype != b.dtype or a.shape != b.shape or a.tobytes() != b.tobytes():
+                out.append(f'{path}: array content changed')
+        except Exception:
+            pass
+        return
+    if isinstance(b, (list, tuple)):
+        if len(a) != len(b):
+            out.append(f'{path}: length {len(a)} -> {len(b)}')
+            return
+        for i, (x, y) in enumerate(zip(a, b)):
+            state_diff(x, y, f'{path}[{i}]', allowed, out, seen, depth + 1)
+        return
+    if isinstance(b, dict):
+        if list(map(repr, a)) != list(map(repr, b)):
+            out.append(f'{path}: keys {list(a)!r} -> {list(b)!r}')
+            return
+        for (ka, x), (kb, y) in zip(a.items(), b.items()):
+            state_diff(x, y, f'{path}[{kb!r}]', allowed, out, seen, depth + 1)
+        return
+    da, db = getattr(a, '__dict__', None), getattr(b, '__dict__', None)
+    if isinstance(db, dict) and isinstance(da, dict):
+        for k in sorted(set(da) | set(db)):
+            if k not in da or k not in db:
+                if not any(f'{path}.{k}' == l for l in allowed):
+                    out.append(f'{path}.{k}: ' + ('created' if k in db else 'deleted'))
+                continue
+            state_diff(da[k], db[k], f'{path}.{k}', allowed, out, seen, depth + 1)
 
 
 def implies(a, b):
@@ -193,6 +241,17 @@ def main():
         except BaseException as e:     # noqa
             raised = e
         env['result'] = result
+        fk_ = 'exc-frame' if raised is not None else 'frame'
+        locs_ = ct.get('exc_modifies' if raised is not None else 'modifies')
+        if fkind == fk_ and locs_ is not None:
+            if ct.get('has_stubs'):
+                out['notes'].append('frame obligation of a contract with abstract callees: the real callees write state of their own, no native verdict')
+            else:
+                diffs = []
+                for nm_ in env_pre:
+                    state_diff(env_pre[nm_], env.get(nm_), nm_, locs_, diffs, set())
+                for d_ in diffs:
+                    out['failed_clauses'].append(f'{fk_}: written outside the declared frame: {d_}')
         if raised is not None:
             en = type(raised).__name__
             full = f'{type(raised).__module__}.{en}' if type(raised).__module__ != 'builtins' else en
